@@ -160,7 +160,7 @@ func buildC11(e *engine, p *rt.Package) {
 						return
 					}
 					valid, _ := json.Marshal(tree)
-					kind := rapid.SampledFrom([]string{"wrong_type", "wrong_type", "wrong_type", "truncate", "trailing", "top_level", "deep_nesting", "invalid_utf8", "duplicate_key", "random_bytes", "binary_garbage", "binary_truncated", "huge_number"}).Draw(t, "mutation")
+					kind := rapid.SampledFrom([]string{"wrong_type", "wrong_type", "wrong_type", "truncate", "trailing", "top_level", "deep_nesting", "invalid_utf8", "duplicate_key", "random_bytes", "binary_garbage", "binary_truncated", "huge_number", "read_error", "read_error"}).Draw(t, "mutation")
 					ct := "application/json"
 					if rapid.IntRange(0, 3).Draw(t, "odd_ct") == 0 {
 						ct = oddContentTypes[rapid.IntRange(0, len(oddContentTypes)-1).Draw(t, "ct")]
@@ -168,6 +168,7 @@ func buildC11(e *engine, p *rt.Package) {
 					var body []byte
 					mustReject := false
 					binary := false
+					cutBody := false
 					desc := kind
 					switch kind {
 					case "wrong_type":
@@ -232,6 +233,23 @@ func buildC11(e *engine, p *rt.Package) {
 							return
 						}
 						body = wire[:rapid.IntRange(1, len(wire)-1).Draw(t, "cut")]
+					case "read_error":
+						// the connection is cut after n bytes of a valid body (n = 0: before the first byte): the body
+						// could not be read, so nothing may be dispatched
+						src := valid
+						if rapid.Bool().Draw(t, "cut_binary") {
+							binary = true
+							ct = "application/x-protobuf"
+							src, _ = proto.Marshal(req)
+						}
+						n := 0
+						if len(src) > 0 && rapid.Bool().Draw(t, "cut_later") {
+							n = rapid.IntRange(0, len(src)).Draw(t, "cut_at")
+						}
+						body = src[:n]
+						cutBody = true
+						mustReject = true
+						desc = fmt.Sprintf("read_error after %d of %d bytes", n, len(src))
 					}
 					res.class("mutation:" + kind)
 					hdr := http.Header{}
@@ -240,7 +258,7 @@ func buildC11(e *engine, p *rt.Package) {
 					}
 					srv.reset(func(string, string, proto.Message) (proto.Message, error) { return m.NewResp(), nil })
 					start := time.Now()
-					rec, panicked := srv.serve(info.Verb, target, hdr, body)
+					rec, panicked := srv.serveBody(info.Verb, target, hdr, body, cutBody)
 					el := time.Since(start)
 					calls := srv.taken()
 					full := fmt.Sprintf("%s %s (%q) %s body=%s", info.Verb, target, ct, desc, short(string(body), 300))
